@@ -966,3 +966,24 @@ Proof.
         -- pose proof (Prj j Hj) as Pj. split; [intros m1 q1 [Y|Y]; subst j; discriminate Pj|split; [intros m1 q1 Y; subst j; discriminate Pj|intros m1 q1 x1 Y; subst j; discriminate Pj]].
       * intros c0 Hc0 _. rewrite Cu, Hcu in Hc0. inversion Hc0; subst c0. rewrite Tr, Tu, Hc', prcount_app, Cr. split; [cbn; lia|reflexivity].
 Qed.
+
+Lemma exec_instr_F : forall p pe st m t i r st' ev,
+  CInv (core st) -> XInv st -> ShInv st -> ERel pe st m -> FRel p st m ->
+  tcont (thr st t) = i :: r -> exec_instr st t i r = (st', ev) ->
+  FRel p st' (fold_left m14r_step (evs t ev) m).
+Proof.
+  intros p pe st m t i r st' ev I X S E R Hc H.
+  assert (Dec : fq i \/ (exists m0 q x, i = ILock m0 (LPqSend q x)) \/ (exists m0 q, i = ILock m0 (LPqCancelSet q)) \/
+                (exists q, (exists m0, i = ILock m0 (LPqRecv q)) \/ i = ICvReacq q) \/ (exists m0 q x, i = ILock m0 (LPqLSend q x)) \/
+                (exists m0 q, i = ILock m0 (LPqCancelGet q)) \/ (exists m0 v, i = IUnlock m0 (URet v)) \/ (exists m0 c x, i = IUnlock m0 (UChPush c x))).
+  { destruct i; try (left; exact Logic.I); [destruct a; try (left; exact Logic.I)|destruct a; try (left; exact Logic.I)|]; right; eauto 12. }
+  destruct Dec as [D|[[m0 [q [x ->]]]|[[m0 [q ->]]|[[q D]|[[m0 [q [x ->]]]|[[m0 [q ->]]|[[m0 [v ->]]|[m0 [c [x ->]]]]]]]]]].
+  - eapply exec_instr_F_quiet; eauto.
+  - eapply exec_psend_F; eauto.
+  - eapply exec_pcancel_F; eauto.
+  - eapply exec_recv_F; eauto.
+  - eapply exec_wlsend_F; eauto.
+  - eapply exec_cancelget_F; eauto.
+  - eapply exec_uret_F; eauto.
+  - eapply exec_uchpush_F; eauto.
+Qed.
